@@ -4,6 +4,8 @@ import (
 	"encoding/json"
 	"errors"
 	"fmt"
+	"runtime"
+	"strings"
 	"sync"
 	"time"
 
@@ -318,6 +320,7 @@ func (c *Client) begin(op string, desc string) (opCtx, bool) {
 	dead := s.dead[c.inst]
 	s.mu.Unlock()
 	s.tr.logf("call %d %d %s", id, c.inst, desc)
+	s.tr.logf("site %d %s", id, callSite())
 	if s.trigger != nil {
 		s.trigger(c.inst, nth, "call")
 	}
@@ -693,3 +696,24 @@ func (p *refProvider) JetStream() (leader.JetStreamContext, error) { return refJ
 type refConnProvider struct{ refProvider }
 
 func (p *refConnProvider) NATSConnection() *nats.Conn { return p.conn }
+
+// callSite names the library function that issued the store operation: the innermost frame of package leader.
+func callSite() string {
+	pcs := make([]uintptr, 24)
+	n := runtime.Callers(3, pcs)
+	frames := runtime.CallersFrames(pcs[:n])
+	for {
+		f, more := frames.Next()
+		if i := strings.Index(f.Function, "NATS-Leader-Election/leader."); i >= 0 {
+			name := f.Function[i+len("NATS-Leader-Election/leader."):]
+			name = strings.TrimPrefix(name, "(*kvElection).")
+			if j := strings.IndexAny(name, ".("); j > 0 {
+				name = name[:j]
+			}
+			return name
+		}
+		if !more {
+			return "-"
+		}
+	}
+}
